@@ -102,7 +102,9 @@ let () =
      while true do
        let line = input_line stdin in
        if String.length line > 0 && line.[0] = '#' then begin
-         w := world_init; print_endline line
+         (* only a "#script" header starts a new world; other comment lines ("#next", "#alarm", ...) are echoed *)
+         if String.length line >= 7 && String.sub line 0 7 = "#script" then w := world_init;
+         print_endline line
        end else if String.trim line <> "" then begin
          let optext = match String.index_opt line '|' with
            | Some i -> String.trim (String.sub line 0 i) | None -> String.trim line in
